@@ -619,23 +619,27 @@ def sweep_alphabet(tier, seed):
     strings = _alphabet_strings(maxlen)
     rng = random.Random(seed)
     extra = _random_strings(rng, 3000 if tier == 'thorough' else 300, 5, 12)
+    shorter = [x for x in strings if len(x) < maxlen]
     longest = [x for x in strings if len(x) == maxlen]
-    crit_sample = rng.sample(longest, 8000 if tier == 'thorough' else 600)
+    # thorough: every string up to length 4 (criteria: up to 3 and a sample of length 4); quick: every string up to length 2 and a sample of length 3
+    sample_big = rng.sample(longest, 1000) if tier == 'quick' else longest
+    sample_crit = rng.sample(longest, 8000 if tier == 'thorough' else 600)
     checks = []
     for pos, what in (('const', 'constants'), ('plain', 'plain_literals'), ('crit', 'criterion_literals'), ('title', 'titles')):
         t0 = time.time()
-        mine = strings if pos != 'crit' else [x for x in strings if len(x) < maxlen] + crit_sample
+        sampled = sample_crit if pos == 'crit' else sample_big
+        mine = shorter + sampled
         its = [(pos, x, False, False) for x in mine + extra]
         its += [(pos, x, False, True) for x in strings if len(x) <= 2] + [(pos, x, False, True) for x in extra[:100]]
-        results = _run_jobs(_chunks('mem', its, 150 if tier == 'quick' else 400))
+        results = _run_jobs(_chunks('mem', its, 120 if tier == 'quick' else 400))
         total = {'evaluations': 0, 'accepted': 0, 'rejected': 0, 'fails': []}
         for r in results:
             _merge(total, r)
         fails = _confirm(total['fails'])
-        scope = (f'every string of length 1..{maxlen} over {len(ALPHABET)} symbols ' + repr(''.join(ALPHABET)) + f' ({len(strings)} strings)'
-                 if pos != 'crit' else
-                 f'every string of length 1..{maxlen - 1} over {len(ALPHABET)} symbols ' + repr(''.join(ALPHABET)) +
-                 f' ({len(mine) - len(crit_sample)} strings), a seeded sample of {len(crit_sample)} of the {len(longest)} strings of length {maxlen}')
+        full = len(sampled) == len(longest)
+        scope = f'every string of length 1..{maxlen if full else maxlen - 1} over {len(ALPHABET)} symbols ' + repr(''.join(ALPHABET)) + \
+            f' ({len(mine) if full else len(shorter)} strings)' + \
+            ('' if full else f', a seeded sample of {len(sampled)} of the {len(longest)} strings of length {maxlen}')
         checks.append(_check_entry(
             f'C07.monitor.alphabet.{what}',
             scope + f' plus {len(extra)} seeded random strings of 5..12 fragments (quotes, braces, {{titles}}, %s, call syntax, operators), as '
